@@ -330,9 +330,9 @@ def smooth_chain(rng):
         T = rng.uniform(2, 6)
     ts = [T * i / n for i in range(n + 1)]
     els = [('M', f(ts[0]))]
-    for a, b in zip(ts, ts[1:]):
-        h = (b - a) / 3
-        p0, p3, d0, d3 = f(a), f(b), df(a), df(b)
+    for ta, tb in zip(ts, ts[1:]):
+        h = (tb - ta) / 3
+        p0, p3, d0, d3 = f(ta), f(tb), df(ta), df(tb)
         els.append(('C', (p0[0] + h * d0[0], p0[1] + h * d0[1]), (p3[0] - h * d3[0], p3[1] - h * d3[1]), p3))
     return els
 
